@@ -234,7 +234,10 @@ int vmd_execute(VmdClient *client, const uint8_t *blob, uint32_t blob_size) {
 #if __BYTE_ORDER__ != __ORDER_LITTLE_ENDIAN__
             code = (int32_t)__builtin_bswap32((uint32_t)code);
 #endif
-            return (int)code;
+            /* A negative value is this function's error indication: hand back the exit status the
+             * program has when run standalone (main's result modulo 256), so that 'return -1' is
+             * status 255 through the daemon too and not a "communication error" */
+            return (int)((uint32_t)code & 0xFFu);
         }
 
         default:
